@@ -58,7 +58,87 @@ pub fn check_object_path(kind: usize, n: u32, segs: usize, rooted: bool) -> Opti
     }
 }
 
+/// A package builder in the ways a caller can use it besides add_element-then-serialise: as a
+/// sink (it implements AmlSink publicly), serialised before it is complete, or after an element that
+/// panicked half-way through. `mode` 0: n raw bytes through the sink interface after k elements;
+/// 1: serialised (discarded), then n more bytes through the sink, serialised again;
+/// 2: serialised, then one more element of n bytes; 3: an element that writes its header and
+/// then panics (address range with min > max), caught, then n bytes.
+/// Whatever it holds, the PkgLength it emits must decode to the bytes that follow.
+pub fn check_builder(mode: u32, k: u32, n: u32) -> Option<Violation> {
+    use acpi_tables::{aml, Aml, AmlSink};
+    let r = std::panic::catch_unwind(std::panic::AssertUnwindSafe(|| {
+        let mut pb = if k % 2 == 0 { aml::PackageBuilder::new() } else { aml::PackageBuilder::default() };
+        for i in 0..k {
+            pb.add_element(&(i as u8));
+        }
+        let filler: Vec<u8> = (0..n).map(|i| i as u8).collect();
+        match mode {
+            0 => {
+                if n % 2 == 0 {
+                    pb.vec(&filler);
+                } else {
+                    for b in &filler {
+                        pb.byte(*b);
+                    }
+                }
+            }
+            1 => {
+                crate::aml::build::peek(&pb);
+                pb.vec(&filler);
+            }
+            2 => {
+                crate::aml::build::peek(&pb);
+                pb.add_element(&aml::BufferData::new(filler.clone()));
+            }
+            _ => {
+                let bad = aml::AddressSpace::new_io(5u16, 1u16, None);
+                let _ = std::panic::catch_unwind(std::panic::AssertUnwindSafe(|| pb.add_element(&bad)));
+                pb.vec(&filler);
+            }
+        }
+        let mut out = Vec::new();
+        pb.to_aml_bytes(&mut out);
+        out
+    }));
+    let Ok(bytes) = r else { return None };
+    let name = ["PackageBuilder/as-sink", "PackageBuilder/serialised-then-sink", "PackageBuilder/serialised-then-element", "PackageBuilder/after-half-written-element"][mode.min(3) as usize];
+    let v = |kind: &str, detail: String, info: String| Some(Violation::new("C07", &format!("pkglength/{}", name), kind, detail, info));
+    match pkglen_decode(&bytes[1..]) {
+        Err(e) => v("pkglen-format", e.to_string(), format!("elements={} extra={}", k, n)),
+        Ok((val, used)) => {
+            let to_end = bytes.len() - 1;
+            if val != to_end {
+                v("pkglen-value", format!("width={}", used), format!("elements={} extra={} decoded={} bytes-to-end={}", k, n, val, to_end))
+            } else if Some(used) != shortest_incl(to_end - used) {
+                v("pkglen-not-shortest", format!("width={}", used), format!("elements={} extra={}", k, n))
+            } else {
+                None
+            }
+        }
+    }
+}
+
 pub fn c07_objects(ctx: &Ctx) {
+    // the package builder used as a sink / serialised more than once / after a failed element
+    let mut bjobs: Vec<(u32, u32, u32)> = Vec::new();
+    for mode in 0..4u32 {
+        for k in [0u32, 1, 2, 5] {
+            for n in (0u32..=70).chain(4080..=4100).chain([255, 256, 65_530, 65_536]) {
+                bjobs.push((mode, k, n));
+            }
+        }
+    }
+    let bres: Vec<((u32, u32, u32), Violation)> = bjobs.par_iter().filter_map(|j| check_builder(j.0, j.1, j.2).map(|v| (*j, v))).collect();
+    ctx.add_evals(bjobs.len() as u64);
+    ctx.add_engine("directed:c07.builder-reuse", bjobs.len() as u64);
+    ctx.add_nontrivial(bjobs.iter().map(|j| fingerprint(&("builder", j))));
+    let mut seenb = std::collections::HashSet::new();
+    for ((mode, k, n), v) in bres {
+        if seenb.insert(v.sig()) {
+            ctx.report("c07.object", json!({"case": {"builder_mode": mode, "elements": k, "extra": n}}), vec![v]);
+        }
+    }
     let mut jobs: Vec<(usize, u32)> = Vec::new();
     let sizes = if ctx.quick() { boundary_sizes(false) } else { (0..=4200).collect() };
     for k in 0..SIZED_KINDS.len() {
@@ -121,6 +201,9 @@ pub fn c07_objects(ctx: &Ctx) {
 }
 
 pub fn c07_replay(case: &serde_json::Value) -> Vec<Violation> {
+    if let Some(m) = case["builder_mode"].as_u64() {
+        return check_builder(m as u32, case["elements"].as_u64().unwrap_or(0) as u32, case["extra"].as_u64().unwrap_or(0) as u32).into_iter().collect();
+    }
     let k = case["object"].as_u64().unwrap_or(0) as usize;
     let n = case["body"].as_u64().unwrap_or(0) as u32;
     let segs = case["segments"].as_u64().unwrap_or(1) as usize;
